@@ -3,7 +3,7 @@
 import json, os
 V = os.path.dirname(os.path.dirname(os.path.abspath(__file__)))
 props = [json.loads(l) for l in open(os.path.join(V, "properties.jsonl"))]
-TB = ("Trusts: Coq 8.16.1 kernel (vm_compute for finite sweeps, no native_compute); tools/translate.py (+probe, clang AST; tools/sites.py translates every function body with clang's types); "
+TB = ("Trusts: Coq 8.16.1 kernel (vm_compute for finite sweeps and for the per-run in-kernel re-evaluation of sampled model answers - lib/xcheck.py - which cross-checks the extraction for the ops crc, verify, iter, epoch, tagname, classify, rtap; no native_compute); tools/translate.py (+probe, clang AST; tools/sites.py translates every function body with clang's types); "
       "hand-written control-flow models tied only by the differential correspondence (harness/*.c under ASan/UBSan vs the "
       "ExtrOcamlBasic-extracted model in ocaml/driver); C integer semantics modelled in Z under stated range hypotheses.")
 CLAIMED = {
@@ -26,7 +26,7 @@ CLAIMED = {
          "model of create_*/add/dump - struct images built at the compiled offsets, tags through the C05 model - serialises exactly the "
          "hand-written 802.11 byte layout, for every buffer size, with the reported length equal to the byte count; RTS/CTS/ATIM images "
          "are exact. Compared byte for byte with the library for all 16 generators under an injected clock."
-         " Code level: c03_code_create_<17> - every generator as translated zeroes its whole object, stores the enumerators / arguments / defaults and adds its tags in order, for every environment; c03_code_length_routines.",
+         " Code level: c03_code_create_<17> - every generator as translated zeroes its whole object, stores the enumerators / arguments / defaults and adds its tags in order, for every environment; c03_code_length_routines. c03_code_create_tag - libwifi_create_tag as translated stores number and length and returns 2 + length for every length, 0 included.",
          "Rocq algebraic proofs over translator-regenerated layouts; differential correspondence; theorems about the C bodies translated from the source on every run (Gen/Sites.v)"),
  "C07": ("Theorems c07_dump_object / c07_dump_action / c07_dump_tag: for EVERY object and EVERY caller buffer the sequence of checked "
          "writes either reports an error leaving the buffer untouched or writes exactly the reported bytes from the first byte and "
@@ -72,7 +72,7 @@ CLAIMED = {
          "vendor, empty continuation words: the decoder returns exactly the fold of the field semantics over the structurally computed "
          "aligned offsets), c09_chain_extends_single, c09_chain_decidable. The executable chain Spec is compared with the library on "
          "generated chains."
-         " Code level: c09_code_rtap_switch_field / _refines_spec / _header_guards / _loop_exit - every turn of the translated field switch reads the little-endian values at the field's sub-offsets and refines the Spec's per-field decoder (the iterator routines themselves, which contain goto, stay tied by the correspondence). The iterator's two routines (goto, pointer increments: not executed) are tied per named site: c09_code_rtnext_sites_covered / c09_code_rtinit_sites_covered - all 60 + 26 conditions, assigned and returned values evaluate to the model's formulas; both switches' shapes. c09_code_rtinit_refines_model - ieee80211_radiotap_iterator_init AS TRANSLATED is executable (pointer increments scaled by the pointee size, the while loop an SLoop) and, for every buffer with only the buffer readable, refuses exactly what Model/Radiotap.v rt_init refuses and otherwise leaves the model's iterator in the members (loop over the extended present words by induction); only iterator_next (goto) remains tied per site.",
+         " Code level: c09_code_rtap_switch_field / _refines_spec / _header_guards / _loop_exit - every turn of the translated field switch reads the little-endian values at the field's sub-offsets and refines the Spec's per-field decoder (the iterator routines themselves, which contain goto, stay tied by the correspondence). The iterator's two routines (goto, pointer increments: not executed) are tied per named site: c09_code_rtnext_sites_covered / c09_code_rtinit_sites_covered - all 60 + 26 conditions, assigned and returned values evaluate to the model's formulas; both switches' shapes. c09_code_rtinit_refines_model - ieee80211_radiotap_iterator_init AS TRANSLATED is executable (pointer increments scaled by the pointee size, the while loop an SLoop) and, for every buffer with only the buffer readable, refuses exactly what Model/Radiotap.v rt_init refuses and otherwise leaves the model's iterator in the members (loop over the extended present words by induction); only iterator_next (goto) remains tied per site. iterator_next AS TRANSLATED is executable by Base/CGoto.v's execg (exec + forward gotos; find_ns inlined): c09_code_rtnext_goto_landing (where goto next_entry lands, computed from the body), c09_code_rtnext_enoent, c09_code_rtnext_absent_pass (the whole pass over an absent argument = the model's shift_next, for all values); the translated iterator is RUN by the kernel against the model on seven concrete headers (Example c09_code_rtnext_runs_agree) and on 120 sampled radiotap cases of every run (lib/xcheck.py).",
          "Rocq refinement proof by induction over the field list; differential correspondence; theorems about the C bodies translated from the source on every run (Gen/Sites.v)"),
  "C10": ("Theorems c10_layout (for ALL 2^11 selections of carried fields and all values the generator emits exactly the rendered header), "
          "c10_valid_header (version 0, length field = bytes produced, present word, every field little-endian at its naturally aligned "
@@ -80,7 +80,7 @@ CLAIMED = {
          "theorem), c10_classify_invariant (prepending it, with an FCS when announced, leaves the classification unchanged up to the "
          "radiotap/FCS flags). The generator is compared byte for byte with the library on all 2^11 subsets x boundary and random values, "
          "and the generated bytes are decoded again by the library."
-         " Code level: c10_code_rtgen_c10_rtap / _layout - libwifi_create_radiotap as translated (loop over 23 field numbers by induction, alignment loaded from the table bytes) returns the Spec's length and fills the staging area without gap.",
+         " Code level: c10_code_rtgen_c10_rtap / _layout - libwifi_create_radiotap as translated (loop over 23 field numbers by induction, alignment loaded from the table bytes) returns the Spec's length and fills the staging area without gap. c10_code_decoder_switch_field / _refines_spec - the decoding side: one turn of the translated field switch reads the little-endian values at the field's sub-offsets (the 64-bit timestamp as one load) and is the specification's per-field decoder.",
          "Rocq algebraic + round-trip proofs by induction over the field list; differential correspondence; theorems about the C bodies translated from the source on every run (Gen/Sites.v)"),
  "C11": ("Theorems c11_crc_exact (the C loop with constants re-read from the source computes the IEEE 802.3 32-stage division "
          "register, for every message and every in-bounds read oracle), c11_tbl_equiv (an independent table-driven CRC derived from G), "
@@ -114,7 +114,7 @@ CLAIMED = {
          "c15_set_atomic (a failed setter leaves the stored list exactly as it was), c15_detail_reported, "
          "c15_copy_parser_reported, plus C14's theorems for every schedule. Every allocation index of every scenario is failed in turn "
          "(single failure and fail-from-k) and returns, crash class, stored bytes and ledger are compared with the skeleton."
-         " Code level: c15_code_set_<6 setters> - the translated setters count, add, then remove last and only after a successful add, for every environment.",
+         " Code level: c15_code_set_<6 setters> - the translated setters count, add, then remove last and only after a successful add, for every environment. c15_code_create_tag - libwifi_create_tag as translated reports a NULL malloc answer as -ENOMEM (returning 0 there, C15-n, falsifies it).",
          "Rocq proofs over failure schedules; exhaustive fault injection by link-time wrapping; theorems about the C bodies translated from the source on every run (Gen/Sites.v)"),
  "C16": ("Theorem c16_no_writable_state: the list of writable / thread-local / COMMON data and function-local statics of the library's "
          "objects, re-derived from the current tree on every run (gcc + readelf), is empty; c16_interleaving / "
